@@ -20,12 +20,12 @@ From Verif.C04 Require Import Model Proofs ProofsFun.
 From Verif.C03 Require Import Model Proofs.
 Import ListNotations.
 
-(* neighbours are complete: for every space st (no reachability needed), every level pair i < k inside the
-   disparity window, an active function f of level i that does not vanish on the level-i ancestor of a cell in
+(* neighbours are complete: for every space st (no reachability needed), every level pair i < k (REPAIRED code:
+   no disparity window, fixes/C03-assembly-disparity-window.patch), an active function f of level i that does not vanish on the level-i ancestor of a cell in
    the support of an active level-k function g is listed in neighbors[k][i].  mesh_ok is the C04 duality of
    the tables suppfunc / meshsupp of level i (C04: compared with the implementation on every run). *)
 Theorem neighbors_complete : forall st b k i f g c,
-  in_window (hs_disparity st) k i = true ->
+  i < k ->
   mesh_ok (msh st i) ->
   In f (AFm st i) -> In f (tp_functions (msh st i)) ->
   In g (AFm st k) ->
@@ -154,3 +154,14 @@ Print Assumptions thb_congruence.
    link between the sparse-matrix program assemble_hb (COO merge, fancy indexing, represent_fine) and blk_entry, which
    is compared exactly on sampled entries of every history of the correspondence run and on all entries of
    Examples.ex_sparse_program_is_entry_form (tests). *)
+
+(* The disparity window of the UNPATCHED assembly (neighbors_old: only levels k - disparity .. k-1) is not
+   sufficient on every reachable space: after a refine(..., truncate=True) call (the marking variant meant for
+   THB-admissible meshes) with disparity 1, an active level-1 function meets the support of an active level-3
+   function -- it is a neighbour, the old window does not list it, and the HB interaction (and with it the
+   THB matrix T^T A_hb T) is lost.  Replayed on the implementation: signature impl:lost-entry:*. *)
+Theorem window_sufficient_old_refuted : exists axes d ops k i f,
+  let st := run (hs_init axes (Some d)) ops in
+  In f (neighbors st None k i) /\ ~ In f (neighbors_old st None k i) /\ admissible_b st d = false.
+Proof. exact window_old_witness. Qed.
+Print Assumptions window_sufficient_old_refuted.
